@@ -52,6 +52,22 @@ pub struct C15Case {
   /// injected (empty in `all_offsets` mode, where every offset is used)
   pub offsets: Vec<u64>,
   pub all_offsets: bool,
+  /// history on the value: it (and a clone, and its Debug form) is serialised
+  /// once, then these setter calls are applied, and only then the pipeline
+  /// runs — the document must describe the value as it is *now*
+  #[serde(default)]
+  pub edits: Vec<Edit>,
+}
+
+/// One setter call on a `SourceMap`.
+#[derive(Clone, Debug, Serialize, Deserialize, PartialEq)]
+pub enum Edit {
+  File(Option<String>),
+  Sources(Vec<String>),
+  SourcesContent(Vec<String>),
+  Names(Vec<String>),
+  SourceRoot(Option<String>),
+  DebugId(Option<String>),
 }
 
 pub struct C15;
@@ -307,8 +323,49 @@ pub fn check_case(case: &C15Case) -> (Vec<Violation>, Counters) {
 
   // the document bytes J and what parsing it must give
   let (j, expect, own): (String, MapSpec, bool) = match &case.doc {
-    Doc::Value(spec) => {
-      let m = spec.build();
+    Doc::Value(spec0) => {
+      let mut m = spec0.build();
+      let mut spec_now = spec0.clone();
+      if !case.edits.is_empty() {
+        counters.inc("population:values_with_setter_history");
+        // serialise once (directly, through a clone, and through Debug) ...
+        let _ = std::panic::catch_unwind(std::panic::AssertUnwindSafe(|| {
+          let _ = m.clone().to_json();
+          let mut sink = Vec::new();
+          let _ = m.clone().to_writer(&mut sink);
+          let _ = format!("{:?}", m);
+        }));
+        // ... then edit the same value
+        for e in &case.edits {
+          match e {
+            Edit::File(v) => {
+              m.set_file(v.clone());
+              spec_now.file = v.clone();
+            }
+            Edit::Sources(v) => {
+              m.set_sources(v.clone());
+              spec_now.sources = v.clone();
+            }
+            Edit::SourcesContent(v) => {
+              m.set_sources_content(v.clone());
+              spec_now.sources_content = v.clone();
+            }
+            Edit::Names(v) => {
+              m.set_names(v.clone());
+              spec_now.names = v.clone();
+            }
+            Edit::SourceRoot(v) => {
+              m.set_source_root(v.clone());
+              spec_now.source_root = v.clone();
+            }
+            Edit::DebugId(v) => {
+              m.set_debug_id(v.clone());
+              spec_now.debug_id = v.clone();
+            }
+          }
+        }
+      }
+      let spec = &spec_now;
       let j = match std::panic::catch_unwind(std::panic::AssertUnwindSafe(|| m.clone().to_json())) {
         Ok(Ok(j)) => j,
         Ok(Err(e)) => {
@@ -523,6 +580,20 @@ impl C15 {
       fail_at: None,
       truncate_at: None,
     };
+    let edits: Vec<Edit> = if matches!(doc, Doc::Value(_)) && rng.chance(300) {
+      (0..1 + rng.usize_below(3))
+        .map(|_| match rng.below(6) {
+          0 => Edit::File(if rng.chance(700) { Some(nasty_string(&mut rng, 4)) } else { None }),
+          1 => Edit::Sources((0..rng.usize_below(3)).map(|_| nasty_string(&mut rng, 4)).collect()),
+          2 => Edit::SourcesContent((0..rng.usize_below(3)).map(|_| nasty_string(&mut rng, 5)).collect()),
+          3 => Edit::Names((0..rng.usize_below(3)).map(|_| nasty_string(&mut rng, 4)).collect()),
+          4 => Edit::SourceRoot(if rng.chance(700) { Some(nasty_string(&mut rng, 4)) } else { None }),
+          _ => Edit::DebugId(if rng.chance(800) { Some(nasty_string(&mut rng, 6)) } else { None }),
+        })
+        .collect()
+    } else {
+      vec![]
+    };
     let all_offsets = thorough || rng.chance(100);
     let offsets = (0..6).map(|_| rng.below(1 << 20)).collect();
     C15Case {
@@ -532,6 +603,7 @@ impl C15 {
       reader,
       offsets,
       all_offsets,
+      edits,
     }
   }
 
@@ -606,6 +678,17 @@ impl Property for C15Prop {
         cur = cand;
       }
     }
+    // drop setter edits one by one
+    let mut i = 0;
+    while i < cur.edits.len() {
+      let mut c = cur.clone();
+      c.edits.remove(i);
+      if fails(&c) {
+        cur = c;
+      } else {
+        i += 1;
+      }
+    }
     // then the value: drop / shorten strings
     if let Doc::Value(spec) = cur.doc.clone() {
       let mut s = spec;
@@ -668,7 +751,7 @@ impl Property for C15Prop {
     (serde_json::to_value(&cur).unwrap(), from)
   }
   fn rule(&self) -> String {
-    "case = (document, writer plan, reader plan, fault offsets) from splitmix(VERIF_SEED, run index). 65% SourceMap values with strings over quotes, backslashes, C0 controls, DEL, U+2028/2029, BOM, 2-4-byte characters, optional fields present/absent, all-empty vs partly empty sourcesContent; 35% hand-serialised documents with nulls, missing arrays, shuffled and unknown keys, whitespace. Pipeline: to_json -> independent serde_json check; to_writer through a fragmenting/EINTR writer -> file F must equal to_json byte for byte; from_json, from_slice, from_reader(fragmenting reader) must give the same fields; hard write error at k -> Err and F is the k-byte prefix; crash-truncation at k and hard read error at k -> Err, never Ok, never panic (k sampled in quick, every k in 10% of runs and in thorough; 1.5% of the values carry an 8-140 KiB sourcesContent entry, for which the offsets around 8 KiB / 64 KiB / 128 KiB boundaries are added). distinct_nontrivial = distinct documents with at least one non-default field.".into()
+    "case = (document, writer plan, reader plan, fault offsets) from splitmix(VERIF_SEED, run index). 65% SourceMap values (30% of them with a setter history: the value, a clone and its Debug form are serialised once, then 1-3 setters are applied and the pipeline runs on the edited value) with strings over quotes, backslashes, C0 controls, DEL, U+2028/2029, BOM, 2-4-byte characters, optional fields present/absent, all-empty vs partly empty sourcesContent; 35% hand-serialised documents with nulls, missing arrays, shuffled and unknown keys, whitespace. Pipeline: to_json -> independent serde_json check; to_writer through a fragmenting/EINTR writer -> file F must equal to_json byte for byte; from_json, from_slice, from_reader(fragmenting reader) must give the same fields; hard write error at k -> Err and F is the k-byte prefix; crash-truncation at k and hard read error at k -> Err, never Ok, never panic (k sampled in quick, every k in 10% of runs and in thorough; 1.5% of the values carry an 8-140 KiB sourcesContent entry, for which the offsets around 8 KiB / 64 KiB / 128 KiB boundaries are added). distinct_nontrivial = distinct documents with at least one non-default field.".into()
   }
   fn assumptions(&self) -> Vec<String> {
     vec![
